@@ -11,6 +11,7 @@
 use super::*;
 use bcref::twofish as r;
 use cipher::Array;
+include!("@VERIF@/contracts/serpent/sched_uf.inc");
 
 pub fn wf(t: &Twofish) -> bool { t.start <= 2 }
 pub fn any_twofish() -> Twofish {
@@ -90,11 +91,11 @@ fn c_gf_mult() {
     assert!(gf_mult(a, b, p) == r::gf_mul(a, b, 0x100 | p as u16));
 }
 // the same for EVERY low polynomial byte p (2^24 cases, nonlinear in p: slow on every SAT solver)
-// @ob name=c_gf_mult_any_poly props=C08 tier=thorough solver=kissat fn=twofish::gf_mult timeout=3600
+// @ob name=c_gfmul_any_poly props=C08 tier=thorough solver=kissat fn=twofish::gf_mult timeout=3600
 #[kani::proof]
 #[kani::solver(kissat)]
 #[kani::unwind(10)]
-fn c_gf_mult_any_poly() {
+fn c_gfmul_any_poly() {
     let (a, b, p): (u8, u8, u8) = (kani::any(), kani::any(), kani::any());
     assert!(gf_mult(a, b, p) == r::gf_mul(a, b, 0x100 | p as u16));
 }
@@ -181,23 +182,69 @@ g_func_ob!(c_g_func_192, 1);
 // @ob name=c_g_func_128 props=C08,C20 fn=twofish::Twofish::g_func uses=c_sbox,c_mds_column_mult timeout=600
 g_func_ob!(c_g_func_128, 2);
 
+// h and rs_mult as scheduled uninterpreted functions (see sched_uf.inc), shared by the real callee and the reference's:
+// by c_h the real h(x, m, k, offset) and the reference's h(x, L, k) with L_i = M_{2i+offset} are the same function of
+// (x, L, k); by c_rs_mult the real rs_mult and the reference's rs are the same function of the 8 key bytes.
+type HArg = (u32, [[u8; 4]; 4], usize);
+fn eq_harg(a: &HArg, b: &HArg) -> bool {
+    let mut ok = a.0 == b.0 && a.2 == b.2;
+    let mut i = 0;
+    while i < 4 {
+        ok &= u32::from_le_bytes(a.1[i]) == u32::from_le_bytes(b.1[i]);
+        i += 1;
+    }
+    ok
+}
+fn eq_m8(a: &[u8; 8], b: &[u8; 8]) -> bool { u64::from_le_bytes(*a) == u64::from_le_bytes(*b) }
+sched_uf!(uf_h, HArg, (0, [[0; 4]; 4], 0), u32, 0, 40, eq_harg);
+sched_uf!(uf_rs, [u8; 8], [0; 8], [u8; 4], [0; 4], 4, eq_m8);
+pub fn st_h_real(x: u32, m: &[u8], k: usize, offset: usize) -> u32 {
+    let mut l = [[0u8; 4]; 4];
+    let mut i = 0;
+    while i < 4 {
+        if i < k {
+            let mut j = 0;
+            while j < 4 {
+                l[i][j] = m[4 * (2 * i + offset) + j];
+                j += 1;
+            }
+        }
+        i += 1;
+    }
+    uf_h::call((x, l, k))
+}
+fn st_h_ref(x: u32, l: &[[u8; 4]; 4], k: usize) -> u32 { uf_h::call((x, *l, k)) }
+pub fn st_rs_real(m: &[u8], out: &mut [u8]) {
+    let s = uf_rs::call([m[0], m[1], m[2], m[3], m[4], m[5], m[6], m[7]]);
+    out[0] = s[0];
+    out[1] = s[1];
+    out[2] = s[2];
+    out[3] = s[3];
+}
+fn st_rs_ref(m: &[u8; 8]) -> [u8; 4] { uf_rs::call(*m) }
+
 // key_schedule for the three key sizes, from ANY prior state: the 40 key words, the S vector, start = 4 - k
 macro_rules! key_schedule_ob {
     ($name:ident, $k:expr) => {
         #[kani::proof]
-        #[kani::stub(h, spec_h)]
-        #[kani::stub(rs_mult, spec_rs_mult)]
-        #[kani::unwind(21)]
+        #[kani::stub(h, st_h_real)]
+        #[kani::stub(bcref::twofish::h, st_h_ref)]
+        #[kani::stub(rs_mult, st_rs_real)]
+        #[kani::stub(bcref::twofish::rs, st_rs_ref)]
+        #[kani::unwind(41)]
         fn $name() {
             let buf: [u8; 32] = kani::any();
             let mut t = Twofish { s: kani::any(), k: kani::any(), start: kani::any() };
             t.key_schedule(&buf[..8 * $k]);
+            uf_h::replay_same_order();
+            uf_rs::replay_same_order();
             let kd = r::key_schedule(&buf, $k);
             assert!(t.start == 4 - $k && wf(&t));
             assert!(eq40(&t.k, &kd.k));
             let mine = keyed_of(&t);
+            assert!(mine.n == kd.n);
             let mut j = 0;
-            while j < $k {
+            while j < 4 {
                 assert!(mine.s[j] == kd.s[j]);
                 j += 1;
             }
@@ -293,11 +340,11 @@ fn c_decrypt_block() {
     assert!(blk.0 == r::decrypt_with(&keyed_of(&t), &b));
 }
 // C01: a Feistel network is invertible whatever g is, for every well-formed keyed value, both orders
-// @ob name=l_roundtrip props=C01 kind=lemma fn=twofish::Twofish::encrypt_block,twofish::Twofish::decrypt_block uses=c_g_func_128,c_g_func_192,c_g_func_256 timeout=600
+// @ob name=l_roundtrip_ed props=C01 kind=lemma fn=twofish::Twofish::encrypt_block,twofish::Twofish::decrypt_block uses=c_g_func_128,c_g_func_192,c_g_func_256 timeout=600
 #[kani::proof]
 #[kani::stub(Twofish::g_func, uf_g_real)]
 #[kani::unwind(41)]
-fn l_roundtrip() {
+fn l_roundtrip_ed() {
     ufg::schedule_inverse();
     let t = any_twofish();
     let b: [u8; 16] = kani::any();
@@ -306,11 +353,11 @@ fn l_roundtrip() {
     cipher::BlockCipherDecrypt::decrypt_block(&t, &mut blk);
     assert!(blk.0 == b);
 }
-// @ob name=l_roundtrip_rev props=C01 kind=lemma fn=twofish::Twofish::encrypt_block,twofish::Twofish::decrypt_block uses=c_g_func_128,c_g_func_192,c_g_func_256 timeout=600
+// @ob name=l_roundtrip_de props=C01 kind=lemma fn=twofish::Twofish::encrypt_block,twofish::Twofish::decrypt_block uses=c_g_func_128,c_g_func_192,c_g_func_256 timeout=600
 #[kani::proof]
 #[kani::stub(Twofish::g_func, uf_g_real)]
 #[kani::unwind(41)]
-fn l_roundtrip_rev() {
+fn l_roundtrip_de() {
     ufg::schedule_inverse();
     let t = any_twofish();
     let b: [u8; 16] = kani::any();
@@ -321,37 +368,37 @@ fn l_roundtrip_rev() {
 }
 
 // ------------------------------------------------------------------ public API on bytes
-/// contract of key_schedule as a spec function (c_key_schedule_128/192/256)
-pub fn spec_key_schedule(t: &mut Twofish, key: &[u8]) {
-    let k = key.len() / 8;
-    let mut full = [0u8; 32];
-    let mut i = 0;
-    while i < 32 {
-        if i < 8 * k { full[i] = key[i]; }
-        i += 1;
-    }
-    let kd = r::key_schedule(&full, k);
-    t.k = kd.k;
-    t.start = 4 - k;
+// g keyed by the S vector: by c_g_func_* the real g_func and the reference's g are the same function of (S, k, x)
+type GArg = ([[u8; 4]; 4], usize, u32);
+fn eq_garg(a: &GArg, b: &GArg) -> bool {
+    let mut ok = a.1 == b.1 && a.2 == b.2;
     let mut i = 0;
     while i < 4 {
-        if i < k {
-            let mut b = 0;
-            while b < 4 {
-                t.s[4 * i + b] = kd.s[k - 1 - i][b];
-                b += 1;
-            }
-        }
+        ok &= u32::from_le_bytes(a.0[i]) == u32::from_le_bytes(b.0[i]);
         i += 1;
     }
+    ok
 }
+sched_uf!(uf_gk, GArg, ([[0; 4]; 4], 0, 0), u32, 0, 32, eq_garg);
+fn st_gk_real(t: &Twofish, x: u32) -> u32 {
+    let kd = keyed_of(t);
+    uf_gk::call((kd.s, kd.n, x))
+}
+fn st_gk_ref(kd: &r::Keyed, x: u32) -> u32 { uf_gk::call((kd.s, kd.n, x)) }
+fn swap_pairs(c: usize) -> usize { c ^ 1 }
+
 // KeyInit::new_from_slice + encrypt_block / decrypt_block == Twofish of the paper on bytes, for every key of the
-// three sizes and every block (key_schedule and g_func replaced by their contracts).
+// three sizes and every block.  Nothing of the real code is skipped except the callees h, rs_mult, g_func, which
+// (with their reference counterparts) are uninterpreted functions here.
 macro_rules! api_ob {
     ($enc:ident, $dec:ident, $k:expr) => {
         #[kani::proof]
-        #[kani::stub(Twofish::key_schedule, spec_key_schedule)]
-        #[kani::stub(Twofish::g_func, spec_g_func)]
+        #[kani::stub(h, st_h_real)]
+        #[kani::stub(bcref::twofish::h, st_h_ref)]
+        #[kani::stub(rs_mult, st_rs_real)]
+        #[kani::stub(bcref::twofish::rs, st_rs_ref)]
+        #[kani::stub(Twofish::g_func, st_gk_real)]
+        #[kani::stub(bcref::twofish::g, st_gk_ref)]
         #[kani::unwind(41)]
         fn $enc() {
             let key: [u8; 8 * $k] = kani::any();
@@ -359,14 +406,21 @@ macro_rules! api_ob {
             let t = <Twofish as KeyInit>::new_from_slice(&key[..]).unwrap();
             let mut blk = Array(b);
             cipher::BlockCipherEncrypt::encrypt_block(&t, &mut blk);
+            uf_h::replay_same_order();
+            uf_rs::replay_same_order();
+            uf_gk::replay_with(swap_pairs);
             let mut full = [0u8; 32];
             let mut i = 0;
             while i < 8 * $k { full[i] = key[i]; i += 1; }
             assert!(blk.0 == r::encrypt(&full, $k, &b));
         }
         #[kani::proof]
-        #[kani::stub(Twofish::key_schedule, spec_key_schedule)]
-        #[kani::stub(Twofish::g_func, spec_g_func)]
+        #[kani::stub(h, st_h_real)]
+        #[kani::stub(bcref::twofish::h, st_h_ref)]
+        #[kani::stub(rs_mult, st_rs_real)]
+        #[kani::stub(bcref::twofish::rs, st_rs_ref)]
+        #[kani::stub(Twofish::g_func, st_gk_real)]
+        #[kani::stub(bcref::twofish::g, st_gk_ref)]
         #[kani::unwind(41)]
         fn $dec() {
             let key: [u8; 8 * $k] = kani::any();
@@ -374,6 +428,9 @@ macro_rules! api_ob {
             let t = <Twofish as KeyInit>::new_from_slice(&key[..]).unwrap();
             let mut blk = Array(b);
             cipher::BlockCipherDecrypt::decrypt_block(&t, &mut blk);
+            uf_h::replay_same_order();
+            uf_rs::replay_same_order();
+            uf_gk::replay_with(swap_pairs);
             let mut full = [0u8; 32];
             let mut i = 0;
             while i < 8 * $k { full[i] = key[i]; i += 1; }
@@ -381,12 +438,12 @@ macro_rules! api_ob {
         }
     };
 }
-// @ob name=c_api_enc_128 props=C08,C20 fn=twofish::Twofish::new_from_slice,twofish::Twofish::encrypt_block uses=c_key_schedule_128,c_g_func_128,c_g_func_192,c_g_func_256 timeout=900
-// @ob name=c_api_dec_128 props=C08,C20 fn=twofish::Twofish::new_from_slice,twofish::Twofish::decrypt_block uses=c_key_schedule_128,c_g_func_128,c_g_func_192,c_g_func_256 timeout=900
+// @ob name=c_api_enc_128 props=C08,C20 fn=twofish::Twofish::new_from_slice,twofish::Twofish::key_schedule,twofish::Twofish::encrypt_block uses=c_h,c_rs_mult,c_g_func_128 timeout=900
+// @ob name=c_api_dec_128 props=C08,C20 fn=twofish::Twofish::new_from_slice,twofish::Twofish::key_schedule,twofish::Twofish::decrypt_block uses=c_h,c_rs_mult,c_g_func_128 timeout=900
 api_ob!(c_api_enc_128, c_api_dec_128, 2);
-// @ob name=c_api_enc_192 props=C08,C20 fn=twofish::Twofish::new_from_slice,twofish::Twofish::encrypt_block uses=c_key_schedule_192,c_g_func_128,c_g_func_192,c_g_func_256 timeout=900
-// @ob name=c_api_dec_192 props=C08,C20 fn=twofish::Twofish::new_from_slice,twofish::Twofish::decrypt_block uses=c_key_schedule_192,c_g_func_128,c_g_func_192,c_g_func_256 timeout=900
+// @ob name=c_api_enc_192 props=C08,C20 fn=twofish::Twofish::new_from_slice,twofish::Twofish::key_schedule,twofish::Twofish::encrypt_block uses=c_h,c_rs_mult,c_g_func_192 timeout=900
+// @ob name=c_api_dec_192 props=C08,C20 fn=twofish::Twofish::new_from_slice,twofish::Twofish::key_schedule,twofish::Twofish::decrypt_block uses=c_h,c_rs_mult,c_g_func_192 timeout=900
 api_ob!(c_api_enc_192, c_api_dec_192, 3);
-// @ob name=c_api_enc_256 props=C08,C20 fn=twofish::Twofish::new_from_slice,twofish::Twofish::encrypt_block uses=c_key_schedule_256,c_g_func_128,c_g_func_192,c_g_func_256 timeout=900
-// @ob name=c_api_dec_256 props=C08,C20 fn=twofish::Twofish::new_from_slice,twofish::Twofish::decrypt_block uses=c_key_schedule_256,c_g_func_128,c_g_func_192,c_g_func_256 timeout=900
+// @ob name=c_api_enc_256 props=C08,C20 fn=twofish::Twofish::new_from_slice,twofish::Twofish::key_schedule,twofish::Twofish::encrypt_block uses=c_h,c_rs_mult,c_g_func_256 timeout=900
+// @ob name=c_api_dec_256 props=C08,C20 fn=twofish::Twofish::new_from_slice,twofish::Twofish::key_schedule,twofish::Twofish::decrypt_block uses=c_h,c_rs_mult,c_g_func_256 timeout=900
 api_ob!(c_api_enc_256, c_api_dec_256, 4);
